@@ -146,9 +146,37 @@ func (g *treeGen) tree(depth int) *node {
 	}
 }
 
-func randOps(r *hx.RNG, d domain, n int) []string {
+var wrongResetMethods = []string{"GET", "HEAD", "DELETE", "PUT", "PATCH", "OPTIONS"}
+var wrongVerifyMethods = []string{"POST", "HEAD", "DELETE", "PUT", "PATCH", "OPTIONS"}
+
+// apiOp: an exchange with the proxy's own API through the proxy, by a route
+// the front of this case kind recognises.
+func apiOp(r *hx.RNG, kind string) string {
+	routes := "2"
+	if kind == "SEQM" || kind == "SEQN" {
+		routes = "23"
+	}
+	return "A" + string("QRC"[r.Intn(3)]) + string(routes[r.Intn(len(routes))])
+}
+
+func refusedOp(r *hx.RNG) string {
+	if r.Bool() {
+		return "XR:" + wrongResetMethods[r.Intn(len(wrongResetMethods))]
+	}
+	return "XQ:" + wrongVerifyMethods[r.Intn(len(wrongVerifyMethods))]
+}
+
+func randOps(r *hx.RNG, d domain, n int, kind string) []string {
 	var ops []string
 	for i := 0; i < n; i++ {
+		if r.Chance(1, 12) {
+			ops = append(ops, refusedOp(r))
+			continue
+		}
+		if kind != "DIR" && r.Chance(1, 10) {
+			ops = append(ops, apiOp(r, kind))
+			continue
+		}
 		switch k := r.Intn(20); {
 		case k < 12:
 			ops = append(ops, randMessage(r, d, randKind(r), 2).token())
@@ -298,6 +326,42 @@ func generate(cfg *hx.Config) []hx.Case {
 			}
 		}
 	}
+	// 1c. API traffic by every route the proxy recognises (alias host, the API
+	// server's own host:port with a default and with a named host) x query /
+	// reset / configure exchanges, and calls the handlers refuse; nothing of it
+	// may be counted, a reset by any route must leave every verifier initial,
+	// a refused call must leave everything as it was
+	for _, kind := range []string{"SEQ", "SEQM", "SEQN"} {
+		for _, lt := range leafTypes {
+			for _, shape := range []string{"%s", "Gn(%s,F90%cn(%s2;%s3))"} {
+				r := rng.Fork()
+				tok := instantiate(shape, lt, 'h')
+				tree, err := parseTree(tok)
+				if err != nil {
+					panic(tok + ": " + err.Error())
+				}
+				d := domainOf(tree)
+				routes := []string{"2"}
+				if kind != "SEQ" {
+					routes = []string{"2", "3"}
+				}
+				for _, route := range routes {
+					in := []string{kind, tok, "Q"}
+					for i := 0; i < 4; i++ {
+						in = append(in, randMessage(r, d, randKind(r), 0).token())
+					}
+					in = append(in, "AQ"+route, "AC"+route, refusedOp(r), "XR:GET", "XQ:POST", "Q", "AR"+route, "Q")
+					for i := 0; i < 3; i++ {
+						in = append(in, randMessage(r, d, randKind(r), 0).token())
+					}
+					in = append(in, "XR:DELETE", "AQ"+route, "AR"+route, "AQ"+route, "Q")
+					add("api", in)
+					cfg.Count("gen=api_routes")
+				}
+			}
+		}
+	}
+
 	// 2. random trees and histories
 	for k := 0; k < nRandom; k++ {
 		r := rng.Fork()
@@ -308,11 +372,8 @@ func generate(cfg *hx.Config) []hx.Case {
 		}
 		tree := g.top(r.Range(1, maxDepth))
 		d := domainOf(tree)
-		kind := "SEQ"
-		if k%4 == 3 {
-			kind = "DIR"
-		}
-		in := append([]string{kind, tree.String()}, randOps(r, d, r.Range(4, maxOps))...)
+		kind := []string{"SEQ", "SEQM", "SEQN", "DIR"}[k%4]
+		in := append([]string{kind, tree.String()}, randOps(r, d, r.Range(4, maxOps), kind)...)
 		add("rnd", in)
 		cfg.Count("gen=random")
 		cfg.Count(fmt.Sprintf("tree_nodes=%d", bucket(countNodes(tree))))
